@@ -87,6 +87,13 @@ def scenarios(tier):
                      post_cmds=post), 0 if q else 1))
     L.append((SC.scn("noisy-malformed-done-record-j1", noisy_world(32), ["redo --no-color top"], visible=VIS, log_mode=True,
                      post_cmds=post), 0 if q else 1))
+    # a partial line in front of each of two nested builds: the second one is written when another target's lines have been
+    # shown in between, and a record follows it directly -- it is still a line of the script that wrote it
+    pw = World("noisy-partials", {"s": ["0", "1"]},
+               {"top.do": [S(deps=["a", "b"], noise=512, split=True)], "a.do": [S(deps=["s"], noise=1, out="file")], "b.do": [S(deps=["s"], noise=1)]},
+               ["top", "a", "b"], ["top"])
+    L.append((SC.scn("noisy-partial-line-before-each-of-two-nested-builds-j1", pw, ["redo --no-color top"], visible=VIS, log_mode=True,
+                     post_cmds=post, attributed=[("L top 7 building a:", "top"), ("L top 7 building b:", "top")]), 0 if q else 1))
     L.append((SC.scn("noisy-partial-line-with-record-prefix-then-nested-build-j1", noisy_world(64), ["redo --no-color top"], visible=VIS,
                      log_mode=True, post_cmds=post, extra_line=(7, "partial line with @@REDO: in it:", ("top", "a"))), 0 if q else 1))
     # a forced rebuild of top whose dependencies are all up to date: `redo-log -r -u` also shows those (from their logs of the
@@ -190,6 +197,14 @@ def judge_stream(name, pairs, targets, scn, out, times=None):
             if n != 1:
                 out.append(({"kind": "unterminated-last-line-" + ("lost" if n == 0 else "duplicated"), "scenario": scn["name"],
                              "stream": name, "target": t}, {"count": n}))
+    for pat, owner in scn.get("attributed", ()):
+        hits = [(c, l) for c, l in pairs if pat in l]
+        if len(hits) != 1:
+            out.append(({"kind": "special-line-" + ("lost" if not hits else "duplicated"), "scenario": scn["name"],
+                         "stream": name, "target": owner, "text": pat}, {"count": len(hits)}))
+        elif hits[0][0] is None or hits[0][0].split("/")[-1] != owner:
+            out.append(({"kind": "log-line-under-wrong-target", "scenario": scn["name"], "stream": name, "target": owner, "text": pat},
+                        {"header": hits[0][0]}))
     if scn.get("extra_line"):
         seq, pat, who = scn["extra_line"]
         text = "\n".join(l for _c, l in pairs)
